@@ -102,6 +102,19 @@ def layouts(tier):
     out.append({'id': 'zeros', 'subs': [sg('ZER', 'NONE', 36000 + F(1, 2), 360000 + F(1, 4), 5, 6, 150, 150, 'zero', 0),
                                          sg('LIN', 'NONE', 72000, 400000, 7, 6, 300, 300, 'zeroline', 1)]})
     out.append({'id': 'tiny-shifts', 'subs': [sg('TNY', 'NONE', -108000, -540000, 4, 5, 150, 150, 'tiny', 0)]})
+    # PARENT records that do not mirror the geometry: a grid nested three deep whose two inner grids are both declared children of
+    # the outermost; a dense grid lying inside a coarse one with BOTH declared top-level.  The finest containing sub-grid answers.
+    out.append({'id': 'flat-hierarchy', 'subs': [sg('TOP', 'NONE', -108000, -540000, 6, 7, 600, 600, 'linear', 0),
+                                                  sg('MID', 'TOP', -108000 + 600, -540000 + 600, 11, 11, 120, 120, 'linear', 1),
+                                                  sg('FINE', 'TOP', -108000 + 840, -540000 + 960, 9, 7, 30, 30, 'linear', 2)]})
+    out.append({'id': 'two-top-level-overlap', 'subs': [sg('COARSE', 'NONE', 162000, 270000, 7, 8, 600, 600, 'biquadratic', 0),
+                                                         sg('DENSE', 'NONE', 162000 + 1200, 270000 + 600, 9, 9, 150, 150, 'biquadratic', 3)]})
+    # extents in decimal thousandths of an arc-second (not binary fractions): (n - s) / inc is not an integer in floating point
+    out.append({'id': 'decimal-extents', 'subs': [sg('DEC', 'NONE', F(-73484658, 1000), F(-412345679, 1000), 22, 17, 600, 450, 'linear', 0),
+                                                   sg('DC2', 'NONE', F(-60000123, 1000), F(-400000987, 1000), 8, 23, 150, 300, 'biquadratic', 1),
+                                                   sg('DC3', 'NONE', F(44000333, 1000), F(280000111, 1000), 13, 9, 90, 30, 'linear', 2)]})
+    out.append({'id': 'decimal-extents-wide', 'subs': [sg('WID', 'NONE', F(-100000374, 1000), F(251706622, 1000), 6, 52, 900, 900, 'linear', 0),
+                                                        sg('NXT', 'NONE', F(20000001, 1000), F(-300000001, 1000), 21, 37, 300, 900, 'biquadratic', 1)]})
     # the child sub-grid listed BEFORE its parent in the file
     out.append({'id': 'child-first', 'subs': [sg('CHD', 'PAR', -108000 + 1200, -540000 + 1800, 11, 6, 120, 120, 'biquadratic', 2),
                                                sg('PAR', 'NONE', -108000, -540000, 6, 7, 600, 600, 'biquadratic', 0)]})
@@ -135,6 +148,9 @@ def materialise(lay, tag):
     subs = []
     for s in lay['subs']:
         d = dict(s)
+        # the file holds doubles: the extents a reader sees are the doubles nearest to the decimal values (exact for binary fractions)
+        for k in ('s_lat', 'n_lat', 'e_long', 'w_long', 'lat_inc', 'long_inc'):
+            d[k] = F(float(s[k]))
         d['fields'] = fields(s['kind'], s['variant'])
         subs.append(d)
     # deliberately the SAME path for every file a worker process handles: a cache keyed on the file name that survives a
